@@ -72,17 +72,22 @@ func slice(i *interpreter, x, lo, hi, max value) value {
 		}
 		return x[l:h]
 	case *symStr:
-		if isSym(lo) || isSym(hi) {
-			panic(pathAbort{abortUnsupported, "symbolic bounds on symbolic string"})
+		total := int64(0)
+		for _, rr := range x.r {
+			if _, isO := rr.(opaqueSeg); isO {
+				panic(pathAbort{abortUnsupported, "byte slicing of opaque formatted text"})
+			}
+			total += int64(i.concreteRuneLen(rr))
+		}
+		h := total
+		if hi != nil {
+			h = i.boundInt(hi, 0, total, "hi")
 		}
 		l := int64(0)
 		if lo != nil {
-			l = asInt64(lo)
+			l = i.boundInt(lo, 0, h, "lo")
 		}
-		if hi != nil {
-			return i.strSlice(x, l, asInt64(hi), true)
-		}
-		return i.strSlice(x, l, 0, false)
+		return i.strSlice(x, l, h, true)
 	case []value:
 		c := int64(cap(x))
 		m := c
